@@ -429,6 +429,12 @@ pub fn check(case: &Case, obs: &mut Obs) -> Result<(), Fail> {
             }
         });
         let mut ldap = conn.ldap.clone();
+        // a quarter of the cases ask for a small size limit (1-4) which the server - as servers may - does not honour:
+        // what the caller gets is still exactly what the server sent (limits are the server's business, C02 checks
+        // that they are transmitted)
+        if c.sched % 4 == 0 {
+            ldap.with_search_options(ldap3::SearchOptions::new().sizelimit(1 + ((c.sched >> 8) % 4) as i32));
+        }
         let script = c.script.clone();
         let variant = c.variant;
         let slot: std::sync::Arc<std::sync::Mutex<Option<Vec<String>>>> = Default::default();
